@@ -5,6 +5,7 @@ from . import props as P, gen
 NA_REASONS = {
     "C03": "deciding code is wasmparser's payload/section/operator readers interleaved inline with wirm's handlers in parse_internal/parse_comp; CBMC does not finish OperatorsReader::read on 6 symbolic bytes in 20 min and there is no wirm-owned unit to cut out; a fuzzer is the right tool, it is not this family (DESIGN.md section 6)",
     "C23": "the side-effect report is assembled by ~15 inline `if let Some(tag)` sites inside encode_internal between wasm-encoder calls and every record clones Vec<Operator>; Operator::clone alone exhausts CBMC (6-12 GB, no result in 7 min); no symbolic variable can be placed on the native side (DESIGN.md section 6)",
+    "C26": "the deciding code (ComponentSubIterator::next/next_module) keeps per-module Vec metadata and skip lists inside maps and clones them on every module switch; with either HashMap model and even with concrete ids and skip lists CBMC's symbolic execution does not finish in 25 min for 2 modules x 2 functions (path explosion in slice::contains over the cloned Vec), and the same injections through ComponentIterator run out of memory (> 30 GB); comparing the outputs of the two iterator paths natively would be testing, not this family (DESIGN.md section 6)",
     "C27": "parse_comp's nesting stack is driven by wasmparser's Parser::parse_all payload stream and encode_comp is ~600 lines of inline wasm-encoder calls; neither can be symbolically executed and no separable wirm-owned unit bears on 'any nesting depth' (DESIGN.md section 6)",
 }
 
